@@ -351,16 +351,28 @@ def moments_case(ctx, rng, idx):
     n_dim = int(rng.integers(1, 4))
     leaf = GP.make_leaf(kind, n_dim)
     model = GP.build_chi_leaf(leaf, 1)
+    regime = 'regular'
     if kind == 'L':
         theta = np.concatenate([rng.uniform(-1, 1, n_dim),
                                 rng.uniform(0.1, 0.9, n_dim)])
+        if rng.random() < 0.3:
+            # nearly deterministic parameters: any positive scale is in the
+            # support
+            regime = 'tiny_scale'
+            theta[n_dim:] = 10.0 ** rng.uniform(-9, -3, n_dim)
     else:
         theta = np.concatenate([rng.uniform(-1, 3, n_dim),
                                 rng.uniform(0.3, 2, n_dim)])
+        if rng.random() < 0.3:
+            # truncation in the upper tail of the untruncated Gaussian
+            regime = 'tail'
+            theta[:n_dim] = -theta[n_dim:] * rng.uniform(4, 40, n_dim)
     form = ['flat', 'matrix'][int(rng.integers(2))]
     arg = theta if form == 'flat' else theta.reshape(2, n_dim)
-    feats = {'class': GP.leaf_code(leaf), 'parameters': theta, 'form': form}
-    ctx.case(('moments', GP.leaf_code(leaf), form), True, sample=feats)
+    feats = {'class': GP.leaf_code(leaf), 'parameters': theta, 'form': form,
+             'regime': regime}
+    ctx.case(('moments', GP.leaf_code(leaf), form, regime), True,
+             sample=feats)
     try:
         out = np.asarray(model.get_mean_and_std(arg), dtype=float)
     except Exception as e:      # noqa
@@ -376,13 +388,30 @@ def moments_case(ctx, rng, idx):
 
         dist = _leaf_dist(leaf, theta.reshape(2, n_dim), d)
         m1, s1 = dist.mean(), dist.std()
+        if regime == 'tiny_scale':
+            # (closed form without the cancellation in exp(s^2) - 1)
+            m1 = np.exp(mu + sd ** 2 / 2)
+            s1 = m1 * np.sqrt(np.expm1(sd ** 2))
+        elif regime == 'tail':
+            # hazard of the standard normal at a = -mu/sd through erfcx, and
+            # the excess h - a through its asymptotic series for large a
+            from scipy.special import erfcx
+            a = -mu / sd
+            hz = np.sqrt(2 / np.pi) / erfcx(a / np.sqrt(2))
+            ex = hz - a
+            if a > 25:
+                ex = 1 / a - 2 / a ** 3 + 10 / a ** 5 - 74 / a ** 7
+                var = 1 / a ** 2 - 6 / a ** 4 + 50 / a ** 6 - 518 / a ** 8
+            else:
+                var = 1 - hz * ex
+            m1, s1 = sd * ex, sd * np.sqrt(var)
         if not (ctx.close(out[0, d], m1, rtol=1e-7) and
                 ctx.close(out[1, d], s1, rtol=1e-7)):
             ctx.violation('reported_moments', 'moments_mismatch:' + kind,
                           {'chi': out[:, d], 'reference': [m1, s1],
                            'dim': d}, feats)
     # chi's own density integrates to the same moments (n_dim = 1 only)
-    if n_dim == 1:
+    if n_dim == 1 and regime == 'regular':
         mu, sd = theta
 
         def dens(v):
